@@ -59,7 +59,9 @@ type State struct {
 	instrs  int64
 	notes   []string
 
+	choice      *uint64 // pending result of a verifChoice call (set when the state was forked for it)
 	pausedLevel int
+	unverified  bool // forked without a feasibility query: witness invalid until ensureVerified
 	panicking   bool
 	panicVal    Value
 	panicMsg    string
